@@ -109,6 +109,46 @@ func c10monitor(cw *caseWriter) func(tag string, in, obs []uint64) {
 				cw.monitor("C10", tag, "recovered-configuration-differs", "restart %d: latest configuration index %d (%d servers), the log's latest configuration entry is at %d (%d servers)",
 					i, st.sc[sLatestIdx], len(st.latest), wantIdx, len(wantCfg))
 			}
+			// the FSM is rebuilt from the snapshot the server records as its last snapshot / lastApplied: same index, same content
+			// (without RestoreCommittedLogs nothing is replayed on top), and that snapshot is the NEWEST usable one of the store.
+			// Snapshots the server wrote itself open; those of the initial image carry their own flag.
+			if c.rc == 0 {
+				// st.snaps is the store's listing (newest first: by term, then index, later creation first on ties); a snapshot of
+				// the initial image that cannot be opened is known by (index, term); when a usable and an unusable snapshot share
+				// that pair the monitor stays silent
+				bad := map[[2]uint64]bool{}
+				for _, sn := range c.snaps {
+					if !sn.ok {
+						bad[[2]uint64{sn.idx, sn.term}] = true
+					}
+				}
+				ambiguous := false
+				seenPair := map[[2]uint64]int{}
+				for _, sn := range st.snaps {
+					seenPair[[2]uint64{sn[0], sn[1]}]++
+				}
+				for k, n := range seenPair {
+					if n > 1 && bad[k] {
+						ambiguous = true
+					}
+				}
+				var first *[4]uint64
+				for k := range st.snaps {
+					if !bad[[2]uint64{st.snaps[k][0], st.snaps[k][1]}] {
+						first = &st.snaps[k]
+						break
+					}
+				}
+				if first != nil && !ambiguous {
+					if st.sc[sLastSnapIdx] != first[0] || st.sc[sLastSnapTerm] != first[1] {
+						cw.monitor("C10", tag, "restart-did-not-restore-the-newest-usable-snapshot", "restart %d: the server runs on snapshot (%d,%d), the newest usable snapshot its store lists is (%d,%d)", i, st.sc[sLastSnapIdx], st.sc[sLastSnapTerm], first[0], first[1])
+					} else if st.sc[sApplied] == first[0] && uint64(len(st.fsm)) != first[3] {
+						for _, pr := range []string{"C10", "C02"} {
+							cw.monitor(pr, tag, "restart-fsm-is-not-the-snapshot-recorded-as-applied", "restart %d: lastApplied = last snapshot index = %d, that snapshot holds %d items, the FSM holds %d", i, first[0], first[3], len(st.fsm))
+						}
+					}
+				}
+			}
 			// every index up to the last one is covered by the snapshot or present in the log (C11 coverage)
 			have := map[uint64]bool{}
 			for _, e := range st.log {
@@ -177,6 +217,12 @@ func c10gen(cw *caseWriter, tier string, r *rng) {
 			return [][]uint64{evAppend(3, 3, 3, 1, 1, e1, 4, 0, nil), evInstall(3, 3, 3, 6, 3, cfg4, 4, []uint64{302, 303, 305, 306}, false, 0, nil),
 				evAppend(3, 3, 3, 6, 3, [][4]uint64{mk(7, 3, 0, 307)}, 7, 0, nil)}
 		}, []int{1, 3, 1}},
+		{"snapshot-install-from-a-later-term", func(uint64) [][]uint64 {
+			// the sender is in term 4, the snapshot's last entry is of term 3: what is stored carries (6, 3); then the server's own
+			// snapshot after more entries of term 4, and a restart (the listing order is by term first)
+			return [][]uint64{evAppend(3, 3, 3, 1, 1, e1, 4, 0, nil), evInstall(4, 2, 2, 6, 3, cfg4, 4, []uint64{302, 303, 305, 306}, false, 0, nil),
+				evAppend(4, 2, 2, 6, 3, [][4]uint64{mk(7, 4, 0, 407), mk(8, 4, 0, 408)}, 8, 0, nil), evSnapshot(0, nil)}
+		}, []int{1, 3, 1, 2}},
 		{"take-snapshot", func(uint64) [][]uint64 {
 			return [][]uint64{evAppend(3, 3, 3, 1, 1, e1, 4, 0, nil), evSnapshot(0, nil), evAppend(3, 3, 3, 4, 3, e2, 6, 0, nil), evSnapshot(0, nil)}
 		}, []int{1, 2, 1, 2}},
@@ -414,7 +460,9 @@ func runC02(cw *caseWriter, tier string, seed uint64) {
 		runScenarios(cw, 7, seed*100000, 40, 12)
 		runScenarios(cw, 9, seed*100000, 2, 2)
 		runScenarios(cw, 13, seed*100000, 40, 12)
+		runScenarios(cw, 12, seed*100000, 40, 12) // user Restore with calls in flight: every FSM ends with the restored state + the later entries
 	} else {
+		runScenarios(cw, 12, seed*100000, 800, 12)
 		runScenarios(cw, 13, seed*100000, 800, 12)
 		runScenarios(cw, 9, seed*100000, 4, 2)
 		runScenarios(cw, 1, seed*100000, 2000, 12)
